@@ -30,6 +30,8 @@ type Input struct {
 	Files  []dump.File    `json:"files"`
 	Augs   []fam.AugSpec  `json:"augments,omitempty"`
 	Scale  *scalekit.Case `json:"scale,omitempty"`
+	// CLITree: the goyang command's tree format on the module of cli.go
+	CLITree bool `json:"cli_tree,omitempty"`
 }
 
 type fail struct{ fp, exp, obs string }
@@ -180,12 +182,17 @@ func shards(tier string) []string {
 	for i := 0; i < nShards; i++ {
 		out = append(out, fmt.Sprintf("cfg/%d", i), fmt.Sprintf("uses/%d", i), fmt.Sprintf("aug/%d", i))
 	}
+	out = append(out, "cli-tree")
 	return append(out, scalekit.ShardNames()...)
 }
 
 func run(c *core.Ctx) {
 	if strings.HasPrefix(c.Shard, "scale/") {
 		scalekit.Run(c, c.Shard, scaleCases(c.Tier), checkScale, func(cs scalekit.Case) any { return Input{Scale: &cs} })
+		return
+	}
+	if c.Shard == "cli-tree" {
+		runCLITree(c)
 		return
 	}
 	parts := strings.Split(c.Shard, "/")
@@ -243,6 +250,13 @@ func replay(tier string, raw json.RawMessage) (bool, string, string) {
 	var in Input
 	if err := json.Unmarshal(raw, &in); err != nil {
 		return false, "", err.Error()
+	}
+	if in.CLITree {
+		f := checkCLITree()
+		if f == nil {
+			return false, "", "the marks agree"
+		}
+		return true, f.fp, fmt.Sprintf("expected %s\nobserved %s", f.exp, f.obs)
 	}
 	if in.Scale != nil {
 		v := checkScale(*in.Scale)
